@@ -38,6 +38,15 @@ claims = {
    text="Exhaustive enumeration of iteration histories: every placement of up to m (2 quick / 3 thorough) insertions and deletions between the calls of a full SCAN / HSCAN / SSCAN iteration, for every COUNT in {1,2,3,n,n+1,..}, with and without MATCH, over collections whose element names are picked with the dictionary's own hash function so that one insertion doubles the bucket table (16->32->64) and one deletion halves it (64->32->16) in the middle of the iteration (measured: histories_with_table_resize_mid_iteration). Oracle per history: every element present from start to end is returned, nothing absent during the whole iteration is returned, MATCH is honoured, the iteration returns to cursor 0 within a bounded number of calls after the last change.",
    note="Trusted: the harness's bookkeeping of always-present / ever-present elements; the optional private-state probe (table size) only feeds an evidence counter. Tables beyond 128 buckets and more than m mutations per iteration are not covered.",
    tech="exhaustive enumeration of bounded operation histories on the real implementation (stateless model checking of the iteration protocol)"),
+ 'C09': dict(engine='seq', cat='model_checking', ref='DESIGN.md §3 C09',
+   text="Explicit-state BFS over all transaction programs up to 6 (quick) / 8 (thorough) tokens from {MULTI, EXEC, DISCARD, WATCH k, UNWATCH, SET, INCR (ok / runtime error), unknown command, bad arity, BLPOP 0, LPUSH, PING, SELECT 1} on one connection interleaved at command granularity with writes and reads of a second connection; every transition is replayed on the implementation and compared on reply, on the data of databases 0 and 1 seen by an observer connection, and on the connection's session record (MULTI flag, queue length, abort flag, watch count, database) through a private-state probe.",
+   note=E1_NOTE + " Interleavings below command granularity (EXEC vs. concurrent commands at lock level) belong to the scheduler engine (C08).", tech=E1_TECH),
+ 'C10': dict(engine='seq', cat='model_checking', ref='DESIGN.md §3 C10',
+   text="Bounded exhaustive: for each watched key type (string, list, hash, set, missing, key with TTL) alone and all together: every writer of the emulator (~90: in place and replacing, every type, rename from/onto, copy onto, STORE forms, EXPIRE/PERSIST/GETEX, UNLINK, FLUSHDB/FLUSHALL, the clock passing a deadline), ~40 readers and ~30 failing writers, issued by the other and by the watching connection, before MULTI and between MULTI and EXEC, in database 0 and 1, each followed by a probe transaction whose EXEC must be null iff a watched key was modified; plus UNWATCH / DISCARD / EXEC / re-WATCH resets and ABA sequences.",
+   note=E1_NOTE, tech=E1_TECH),
+ 'C14': dict(engine='seq', cat='model_checking', ref='DESIGN.md §3 C14',
+   text="Explicit-state BFS over all command-granular interleavings (depth 3 quick / 4 thorough) of three connections - the third one connecting in the middle of the history - over SELECT (valid, out of range, non-numeric), SET/GET/RPUSH, DBSIZE, FLUSHDB, FLUSHALL, CLIENT SETNAME/GETNAME, HELLO 2/3, MULTI/EXEC, WATCH; after every transition the data of databases 0, 1 and 15 is dumped through EVERY connected connection (a stale per-connection database pointer shows at once) and every connection's session record is compared with the model.",
+   note=E1_NOTE, tech=E1_TECH),
 }
 pending_reason = "check not built yet (work in progress in this session; see DESIGN.md build order)"
 
